@@ -14,6 +14,7 @@ import copy
 from vf.oracle import scopes, strict_ast
 
 FUNC = (ast.FunctionDef, ast.AsyncFunctionDef)
+BUILTIN_NAMES = frozenset(dir(__import__('builtins')))
 
 ID_FIELDS = {
     'Name': ('id', 'bind'), 'FunctionDef': ('name', 'bind'), 'AsyncFunctionDef': ('name', 'bind'), 'ClassDef': ('name', 'bind'),
@@ -267,6 +268,7 @@ def binding_maps(B, R2, resR=None):
         uf.union(kt[0], kv[0])
     fwd = {}
     back = {}
+    skipped = [0]
     for p in al.pairs:
         if p.role != 'bind':
             continue
@@ -275,6 +277,11 @@ def binding_maps(B, R2, resR=None):
         if kb is None or kr is None:
             raise AlignError(('resolver', 'occurrence-not-resolved', type(p.b).__name__), p.bname)
         kr = [uf.find(y) for y in kr]
+        if (id(p.b), p.slot) in resB.fallback_occ and kb[0][0] == 'U' and kb[0][1] not in BUILTIN_NAMES:
+            # a class body reads a name it binds only later, and neither the module nor builtins provide it: the original
+            # raises NameError at this point. What the read finds after minification is not asserted (counted).
+            skipped[0] += 1
+            continue
         if len(kb) != len(kr):
             raise AlignError(('binding', 'class-body-lookup-changed', len(kb), len(kr)), '%s -> %s' % (p.bname, p.rname))
         for x, y in zip(kb, kr):
